@@ -87,6 +87,7 @@ def body_interleave(c0, c1, tA, bodyA, opB, tB, bodyB, at):
     else:
         where = "inside"
     final = mstore.observe(mstore.open_store(kind, _store.PATH))
+    final_a = mstore.observe(storeA)  # what the long-lived store object of A serves afterwards (caches!)
     ctx.LAST_INFO = {"where": where, "fired": fired, "trace": trace}
 
     # ---- known findings: narrow classes over the recorded call-site observation (where the intruder ran)
@@ -94,7 +95,12 @@ def body_interleave(c0, c1, tA, bodyA, opB, tB, bodyB, at):
         idx = fired[0]
         if kind == "tree":
             lock_at = trace.index("lock-create") + 1 if "lock-create" in trace else None
-            if ctx.kf("C05-tree-check-then-act") and idx > 1 and (lock_at is None or idx <= lock_at):
+            # the recorded defect concerns A's OWN preconditions (etag / UID / existence of its target), which are
+            # evaluated before the lock: it can only show when B touches A's target name or brings in A's UID
+            uA = SP.uid(nA, bodyA) if opA in (0, 1) else None
+            uB = SP.uid(nB, bodyB) if opB in (0, 1) else None
+            related = nA == nB or (uA is not None and uA == uB)
+            if ctx.kf("C05-tree-check-then-act") and related and idx > 1 and (lock_at is None or idx <= lock_at):
                 return (True, "known")
         else:
             # bare store: the head read inside do_commit is the last ref-read before the compare-and-set
@@ -114,7 +120,7 @@ def body_interleave(c0, c1, tA, bodyA, opB, tB, bodyB, at):
         for x in order:
             want, cur = _spec(cur, *ops[x], S)
             good = good and res[x] == want
-        if good and mstore.agrees(kind, final, cur):
+        if good and mstore.agrees(kind, final, cur) and mstore.agrees(kind, final_a, cur):
             ok = True
     # no two live members share a UID
     seen = []
